@@ -126,41 +126,82 @@ def symContainer : Container → Container
   | .spmatrix .lil => .spmatrix .csr
   | c => c
 
+/-- facts about the source read by the translator (`Model.Generated.BuildersSite`) -/
+structure Site where
+  /-- `_apply_prior_counts` converts a `numpy.matrix` result back to an `ndarray` -/
+  priorMatrixToArray : Bool
+  /-- `transpose` returns `C_sym / 2` with the integer literal `2` -/
+  transposeHalfIntLiteral : Bool
+  /-- `transpose` computes the populations with `C_sym.sum()` (no axis) -/
+  transposeTotalSum : Bool
+
+/-- facts about one call that the container behaviour depends on -/
+structure CallInfo where
+  /-- at least two states -/
+  multi : Bool
+  /-- `calculate_eq_probs` -/
+  calcEq : Bool
+  /-- scipy stores the symmetrised bsr matrix as several blocks larger than 1×k (3-D block data) -/
+  bsrBlocky : Bool
+
 /-- `_apply_prior_counts`: container of `C + prior_counts`.
 `spmatrix + scalar` raises `NotImplementedError` for every format but dok, and the handler
-computes `np.array(C.todense()) + prior` (ndarray); `spmatrix + ndarray` is `numpy.matrix`. -/
-def priorContainer (c : Container) : PriorKind → Container
+computes `np.array(C.todense()) + prior` (ndarray); `spmatrix + ndarray` is `numpy.matrix`,
+unless the source converts a `numpy.matrix` result back to an array (`toArr`). -/
+def priorContainer (toArr : Bool) (c : Container) : PriorKind → Container
   | .none => c
   | .scalar => match c with
       | .spmatrix .dok => .spmatrix .dok
       | .spmatrix _ => .ndarray
       | d => d
   | .dense => match c with
-      | .spmatrix _ => .npmatrix
+      | .spmatrix _ => if toArr then .ndarray else .npmatrix
       | d => d
 
 /-- `_row_normalize`: `isspmatrix` → `type(C)(T)`; otherwise `np.array(C)` → ndarray -/
 def rowNormContainer (c : Container) : Container :=
   if c.isSparse then c else .ndarray
 
+/-- `transpose` L108-114: containers of `(C_sym, probs)` after the recast -/
+def transposePair (c' : Container) : Container × Container :=
+  let s := symContainer c'
+  let probs := rowNormContainer s
+  -- `if type(C) is not type(probs): probs = type(C)(probs); C_sym = type(C)(C_sym)`
+  if c' = probs then (s, probs) else (c', c')
+
 /-- containers of the returned `(C, T)` -/
-def builderContainers (b : BuilderId) (c : Container) (p : PriorKind) :
-    Except CErr (Container × Container) :=
-  let c' := priorContainer c p
+def builderContainers (site : Site) (ci : CallInfo) (b : BuilderId) (c : Container)
+    (p : PriorKind) : Except CErr (Container × Container) :=
+  let c' := priorContainer site.priorMatrixToArray c p
   match b with
   | .normalize => .ok (c', rowNormContainer c')
   | .transpose =>
-      let s := symContainer c'
-      let probs := rowNormContainer s
-      -- `if type(C) is not type(probs): probs = type(C)(probs); C_sym = type(C)(C_sym)`
-      let (s', probs') := if c' = probs then (s, probs) else (c', c')
-      -- `C_sym / 2` keeps the container (scipy: same format; ndarray/matrix: same type)
-      .ok (s', probs')
+      let (s', probs') := transposePair c'
+      -- `C_sym.sum()` without axis: scipy's bsr_matrix with blocks larger than 1x1 views its
+      -- 3-D block data as numpy.matrix and raises ValueError("shape too large to be a matrix")
+      if ci.calcEq && site.transposeTotalSum && ci.bsrBlocky && s' == .spmatrix .bsr then
+        .error .valueError
+      else
+        -- `C_sym / 2` keeps the container (scipy: same format; ndarray/matrix: same type)
+        .ok (s', probs')
   | .mle =>
       match c' with
       | .spmatrix f => .ok (.spmatrix f, .spmatrix f)     -- sparsetype = type(C); toarray()
       | .ndarray => .ok (.ndarray, .ndarray)              -- np.array(C), np.array(T)
-      | .npmatrix => .error .valueError                   -- `_prinz_mle_py` on numpy.matrix raises
+      -- `_prinz_mle_py` on a numpy.matrix: `X[i,i] = <1x1 matrix>` raises ValueError as soon as a
+      -- diagonal update runs (every state of a connected chain with ≥ 2 states); a single state
+      -- runs through (and returns `pi` as a 1x1 numpy.matrix), re-wrapped by `np.array`
+      | .npmatrix => if ci.multi then .error .valueError else .ok (.ndarray, .ndarray)
+
+/-- `C_sym / 2` (builders.py L120) as scipy computes it: `lil_matrix` and `dok_matrix` keep an
+integer dtype under true division by an integer scalar, i.e. they truncate; every other
+container (and every float dtype, and a float divisor) gives the exact half.
+`intLiteral`: the source divides by the integer literal `2` (a fact read by the translator). -/
+def halfTruncates (intLiteral : Bool) (c : Container) (intDtype : Bool) : Bool :=
+  intLiteral && intDtype && (c == .spmatrix .lil || c == .spmatrix .dok)
+
+/-- one entry of the returned symmetrised counts -/
+def halfEntry (trunc : Bool) (x : Rat) : Rat := if trunc then ((x / 2).floor : Int) else x / 2
 
 /-- the containers the property quantifies over -/
 def Container.inScope : Container → Bool
